@@ -837,6 +837,10 @@ fn children_case(env: &mut Env, srt: &tokio::runtime::Runtime, rng: &mut Rng, id
     let obs = srt.block_on(async {
         // (`Sup` overrides the default supervision policy, which would stop the parent with its first child)
         let (parent, _) = Actor::spawn(None, Sup { events: Arc::new(Mutex::new(Vec::new())) }, ()).await.expect("spawn parent");
+        // (`spawn` returns after `pre_start`; the loop task sets `Running` after `post_start`)
+        while parent.get_status() != ractor::ActorStatus::Running {
+            tokio::task::yield_now().await;
+        }
         let mut kids = Vec::new();
         for _ in 0..n {
             let (k, _) = Actor::spawn_linked(None, Gated { gate: gate.clone() }, (), parent.get_cell()).await.expect("spawn kid");
